@@ -681,7 +681,7 @@ def quad_oracle(c, out):
 # run
 # --------------------------------------------------------------------------
 def run(ctx):
-    ctx.build(FILES)
+    ctx.build_with_translator(FILES)
     pass  # known findings come from /verif/known_findings.json only
     ctx.cov['rule'] = (
         'three case families, all evaluated by the real API and by the Coq model (vm_compute): '
